@@ -273,6 +273,9 @@ def rw_cfg_statements(text, security, fired):
                                 j = m + 1; continue
                             if nxt in ('.', '?'):
                                 j = m + 1; continue
+                            if nxt == '=>':
+                                # a match arm whose PATTERN has braces (`Kind { field } => ..`): the arm goes on
+                                j = m + 1; continue
                             if nxt in (',', ';'):
                                 end = m + 1; break
                             end = m; break
